@@ -575,6 +575,23 @@ MODELS = {
     int.from_bytes: m_int_from_bytes,
     memoryview: lambda x: x if isinstance(x, SymBytes) else memoryview(x),
 }
+import posixpath as _pp
+
+
+def _m_pathjoin(a, *ps):
+    """posixpath.join for bytes (pure string operation; the real one calls os.fspath in C)"""
+    path = a
+    for b in ps:
+        if b.startswith(b"/"):
+            path = b
+        elif not path or path.endswith(b"/"):
+            path = path + b
+        else:
+            path = path + b"/" + b
+    return path
+
+
+MODELS[_pp.join] = _m_pathjoin
 import stat as _stat_mod
 MODELS[_stat_mod.S_ISDIR] = _m_s_isdir
 MODELS[_stat_mod.S_ISREG] = _m_s_isreg
